@@ -199,7 +199,7 @@ func genC13(rt *rapid.T) c13Case {
 			how = rapid.SampledFrom([]string{"other-key", "missing", "case-changed", "truncated", "padding-bits-1", "padding-bits-2", "padding-bits-3", "unpadded", "url-alphabet-or-doubled"}).Draw(rt, "acceptBad")
 			r.Accept = how
 		case "proto":
-			how = rapid.SampledFrom([]string{"unrequested", "requested-case", "empty", "header-only", "list-with-requested", "requested-then-foreign", "two-lines"}).Draw(rt, "protoBad")
+			how = rapid.SampledFrom([]string{"unrequested", "requested-case", "empty", "header-only", "list-with-requested", "requested-then-foreign", "two-lines", "requested-trailing-comma", "requested-leading-comma", "only-commas"}).Draw(rt, "protoBad")
 			r.Proto = how
 		case "ext":
 			how = rapid.SampledFrom(c13ExtKinds).Draw(rt, "extKind")
@@ -281,6 +281,13 @@ func doC13(c c13Case) (conn *websocket.Conn, err error, seen c13Seen, respProto 
 			respProto = "not-asked-for"
 		case "header-only":
 			respProto = "header-only" // named in the caller's header entry (if there is one), never in Subprotocols
+		case "requested-trailing-comma", "requested-leading-comma", "only-commas":
+			// a requested name decorated with empty list elements, or nothing but empty elements
+			req := "chat"
+			if len(c.Protos) > 0 {
+				req = c.Protos[0]
+			}
+			respProto = map[string]string{"requested-trailing-comma": req + ",", "requested-leading-comma": ", " + req, "only-commas": ", ,"}[c.Resp.Proto]
 		case "list-with-requested", "requested-then-foreign", "two-lines":
 			// a server selects ONE protocol: a list, or two header lines, is not a selection even if a requested name is in it
 			req := "chat"
@@ -415,6 +422,14 @@ func checkC13Request(c c13Case, r *http.Request) string {
 	return ""
 }
 
+// sp13Asked: the subprotocol names that were on the wire in the request.
+func sp13Asked(c c13Case) []string {
+	if len(c.Protos) > 0 {
+		return c.Protos
+	}
+	return ref.Tokens(c.Header.Values("Sec-WebSocket-Protocol"))
+}
+
 func c13Verdict(c c13Case) string {
 	r := c.Resp
 	if r.Status != 101 {
@@ -430,6 +445,15 @@ func c13Verdict(c c13Case) string {
 	switch r.Proto {
 	case "unrequested", "list-with-requested", "requested-then-foreign", "two-lines":
 		return "bad"
+	case "requested-trailing-comma", "requested-leading-comma":
+		// not a token; a recipient that drops empty list elements (RFC 7230 section 7) reads the requested name.
+		// Either way the connection must not report a protocol nobody asked for (checked on the connection).
+		if len(c.Protos) == 0 {
+			return "bad"
+		}
+		verdict = "either"
+	case "only-commas":
+		verdict = "either" // no protocol at all, if empty elements are dropped
 	case "header-only":
 		if len(c.Protos) > 0 || len(c.Header.Values("Sec-WebSocket-Protocol")) == 0 {
 			return "bad" // it was not on the wire: Subprotocols replaced the header entry, or there was none
@@ -543,6 +567,17 @@ func TestC13(t *testing.T) {
 				msg = fmt.Sprintf("a valid response was rejected: %v", err)
 			case verdict == "bad" && err == nil:
 				msg = "an invalid response was accepted"
+			}
+			if msg == "" && conn != nil {
+				// whatever the response looked like: the connection reports a subprotocol the caller asked for, or none
+				sp, asked := conn.Subprotocol(), sp13Asked(c)
+				ok := sp == ""
+				for _, a := range asked {
+					ok = ok || strings.EqualFold(a, sp)
+				}
+				if !ok {
+					msg = fmt.Sprintf("Dial returned a connection whose Subprotocol() is %q; asked for: %q (response kind %s)", sp, asked, c.Resp.Proto)
+				}
 			}
 			if msg == "" && err != nil {
 				// "an error and no connection": the transport of the rejected response must not stay open
